@@ -14,7 +14,7 @@ use super::adapter::TableAdapter;
 use super::data_gen::DataTable;
 use super::ir_sexp::rows_to_sexp;
 use super::schema_gen::GenSchema;
-use crate::sexp::Sexp;
+use tfharness::sexp::Sexp;
 
 pub type Row = BTreeMap<Arc<str>, FieldValue>;
 
